@@ -44,9 +44,19 @@ def make_core(prop):
 
 LEVEL = {}
 CHECKS = {}
-for p in ("C02", "C05", "C08"):
+for p in ("C02", "C05"):
     CHECKS[p] = make_core(p)
     LEVEL[p] = "model_checking"
+
+
+def check_c08(out, tier, seed):
+    """core histories plus the version-queue catalogue with clashing identifiers"""
+    mc = QUICK_MC + [("kfq", 3)] if tier == "quick" else THOROUGH_MC + [("kfq", 4)]
+    _core(out, tier, seed, "C08", mc, mc, (150, 10), (3000, 14))
+
+
+CHECKS["C08"] = check_c08
+LEVEL["C08"] = "model_checking"
 
 
 def check_c16(out, tier, seed):
